@@ -15,8 +15,8 @@ import (
 	xhpack "golang.org/x/net/http2/hpack"
 	"mosn.io/mosn/pkg/protocol"
 	"mosn.io/mosn/pkg/stream"
-	"mosn.io/pkg/variable"
 	"mosn.io/pkg/buffer"
+	"mosn.io/pkg/variable"
 
 	"verif/harness/lab"
 )
